@@ -2,7 +2,7 @@
 C07 — Trained support vector machines are optimal solutions of their dual problem.
 (theorems on the solver/trainer model; see checks/c07.py for the tie)
 -/
-import SharkVerif.Lemmas.Bias
+import SharkVerif.Lemmas.WarmStart
 import SharkVerif.Props.C08
 namespace SharkVerif.C07
 open SharkVerif.Qp SharkVerif.Smo SharkVerif.SvmTrainer
@@ -548,5 +548,145 @@ theorem psd_block {n : Nat} {Q : Nat → Nat → Rat} (h : PSD n Q) : PSD (2 * n
 
 example : ∃ (n : Nat) (K : Nat → Nat → Rat) (nu : Rat), (∀ x y, K x y = K y x) ∧ 0 < n ∧ 0 < nu ∧ nu < 1 :=
   ⟨2, fun _ _ => 1, 1 / 2, fun _ _ => rfl, by decide, by norm_num, by norm_num⟩
+
+
+/-! ## Warm starts -/
+
+/-- **warm start**: `setInitialSolution(a0)` on a state with all variables active yields a state satisfying the
+invariant whenever `a0` lies in the box (gradient and edge gradient are rebuilt from scratch) -/
+theorem setInitialSolution_inv {s : RS} (h : Inv s) (hact : s.active = s.n) (a0 : Nat → Rat)
+    (hbox : ∀ k, k < s.n → s.L k ≤ a0 k ∧ a0 k ≤ s.U k) : Inv (s.setInitialSolution a0) := by
+  unfold State.setInitialSolution
+  refine { sym := h.sym, act_le := h.act_le, noshrink := h.noshrink, perm_lt := h.perm_lt, perm_inj := h.perm_inj,
+           diag := h.diag, box := hbox, flo := ?_, fup := ?_, grad := ?_, edge := ?_, shrunk := ?_ }
+  · intro k _; simp only [beq_iff_eq]
+  · intro k _; simp only [beq_iff_eq]
+  · intro a _
+    dsimp only
+    rw [foldl_filter_sub (fun i => !(a0 i == (0.0 : Rat))) (fun i k => a0 i * s.q i k) s.lin s.n a]
+    show _ = s.lin a - rsum (fun b => s.K (s.perm a) (s.perm b) * a0 b) s.n
+    congr 1; apply rsum_congr; intro i _
+    by_cases h0 : a0 i = 0
+    · simp [h0, lit0]
+    · have : (!(a0 i == (0.0 : Rat))) = true := by rw [lit0]; simp [h0]
+      rw [this, if_pos rfl]; simp only [State.q]; rw [h.sym]; ring
+  · intro _ a _
+    dsimp only
+    rw [List.filter_filter,
+      foldl_filter_sub _ (fun i k => a0 i * s.q i k) s.lin s.n a]
+    show _ = s.lin a - rsum (fun b => if a0 b = s.L b ∨ a0 b = s.U b then s.K (s.perm a) (s.perm b) * a0 b else 0) s.n
+    congr 1; apply rsum_congr; intro i hi
+    rw [boxMin_eq h hi, boxMax_eq h hi]
+    by_cases h0 : a0 i = 0
+    · simp [h0, lit0]
+    · by_cases hb : a0 i = s.L i ∨ a0 i = s.U i
+      · have : (((a0 i == s.L i) || (a0 i == s.U i)) && !(a0 i == (0.0 : Rat))) = true := by
+          rw [lit0]; rcases hb with e | e <;> simp [e, h0] <;> (rw [← e]; exact h0)
+        rw [this, if_pos rfl, if_pos hb]; simp only [State.q]; rw [h.sym]; ring
+      · have : (((a0 i == s.L i) || (a0 i == s.U i)) && !(a0 i == (0.0 : Rat))) = false := by
+          push_neg at hb; simp [hb.1, hb.2]
+        rw [this, if_neg hb]; simp
+  · intro k hk1 hk2
+    have : s.n ≤ k := by rw [← hact]; exact hk1
+    exact absurd hk2 (Nat.not_lt.mpr this)
+
+/-- **the warm-start vector lies in the box** (boxes contain 0, as for every C-SVM problem) -/
+theorem warmStart_in_box (s : RS) (a1 : Nat → Rat) (bias : Bool)
+    (hbox : ∀ k, k < s.n → s.L k ≤ 0 ∧ 0 ≤ s.U k) :
+    ∀ k, k < s.n → s.L k ≤ warmStartVector s a1 bias k ∧ warmStartVector s a1 bias k ≤ s.U k := by
+  intro k hk
+  have hc := clipv_box s a1 k (le_trans (hbox k hk).1 (hbox k hk).2)
+  obtain ⟨hL0, hU0⟩ := hbox k hk
+  rw [warmStartVector_apply]
+  split
+  · exact hc
+  split
+  · exact hc
+  rename_i _ hne
+  split
+  · obtain ⟨hf0, hf1⟩ := warmF_bounds (warmP_nonneg s a1) (warmN_nonneg s a1) hne
+    generalize warmF (warmP s a1) (warmN s a1) = f at hf0 hf1 ⊢
+    by_cases hpos : 0 < clipv s a1 k
+    · constructor
+      · have := mul_nonneg (le_of_lt hpos) hf0; linarith
+      · have := mul_le_mul_of_nonneg_left hf1 (le_of_lt hpos); linarith [hc.2]
+    · have hle : clipv s a1 k ≤ 0 := not_lt.mp hpos
+      constructor
+      · have := mul_le_mul_of_nonneg_left hf1 (neg_nonneg.mpr hle)
+        nlinarith [hc.1]
+      · have := mul_nonneg (neg_nonneg.mpr hle) hf0
+        nlinarith
+  · exact hc
+
+/-- **with bias the warm-start vector sums to zero** (exactly, in exact arithmetic): this is what the repair of
+F-C07-2 establishes, and `sum_inv` (C08) keeps it for the whole run -/
+theorem warmStart_sum_zero (s : RS) (a1 : Nat → Rat) : rsum (warmStartVector s a1 true) s.n = 0 := by
+  have hsplit : rsum (clipv s a1) s.n = warmP s a1 - warmN s a1 := by
+    unfold warmP warmN; rw [← rsum_sub]; apply rsum_congr; intro i _; split <;> ring
+  by_cases hPN : warmP s a1 = warmN s a1
+  · have : rsum (warmStartVector s a1 true) s.n = rsum (clipv s a1) s.n := by
+      apply rsum_congr; intro k _; rw [warmStartVector_apply]; simp [hPN]
+    rw [this, hsplit, hPN, sub_self]
+  · have hP := warmP_nonneg s a1
+    have hN := warmN_nonneg s a1
+    by_cases hgt : warmN s a1 < warmP s a1
+    · -- positive side is heavier: positive coefficients are scaled by N/P
+      have hPpos : 0 < warmP s a1 := lt_of_le_of_lt hN hgt
+      have hF : warmF (warmP s a1) (warmN s a1) = warmN s a1 / warmP s a1 := by unfold warmF; rw [if_pos hgt]
+      have : rsum (warmStartVector s a1 true) s.n
+          = rsum (fun i => (warmN s a1 / warmP s a1) * (if 0 < clipv s a1 i then clipv s a1 i else 0)
+              - (if 0 < clipv s a1 i then 0 else - clipv s a1 i)) s.n := by
+        apply rsum_congr; intro k _
+        rw [warmStartVector_apply, if_neg (by simp), if_neg hPN, hF]
+        by_cases hpos : 0 < clipv s a1 k
+        · have hne : clipv s a1 k ≠ 0 := ne_of_gt hpos
+          rw [if_pos ⟨⟨fun _ => hgt, fun _ => hpos⟩, hne⟩]; simp only [hpos, if_true]; ring
+        · rw [if_neg (fun h => hpos (h.1.2 hgt))]; simp only [hpos, if_false]; ring
+      rw [this, rsum_sub, rsum_mul_left]
+      show warmN s a1 / warmP s a1 * warmP s a1 - warmN s a1 = 0
+      rw [div_mul_cancel₀ _ (ne_of_gt hPpos), sub_self]
+    · -- negative side is heavier: negative coefficients are scaled by P/N
+      have hlt : warmP s a1 < warmN s a1 := lt_of_le_of_ne (not_lt.mp hgt) hPN
+      have hNpos : 0 < warmN s a1 := lt_of_le_of_lt hP hlt
+      have hF : warmF (warmP s a1) (warmN s a1) = warmP s a1 / warmN s a1 := by
+        unfold warmF; rw [if_neg (not_lt.mpr (le_of_lt hlt))]
+      have : rsum (warmStartVector s a1 true) s.n
+          = rsum (fun i => (if 0 < clipv s a1 i then clipv s a1 i else 0)
+              - (warmP s a1 / warmN s a1) * (if 0 < clipv s a1 i then 0 else - clipv s a1 i)) s.n := by
+        apply rsum_congr; intro k _
+        rw [warmStartVector_apply, if_neg (by simp), if_neg hPN, hF]
+        by_cases hpos : 0 < clipv s a1 k
+        · rw [if_neg (fun h => hgt (h.1.1 hpos))]; simp only [hpos, if_true]; ring
+        · by_cases hz : clipv s a1 k = 0
+          · rw [if_neg (fun h => h.2 hz)]; simp [hz]
+          · rw [if_pos ⟨⟨fun h => absurd h hpos, fun h => absurd h hgt⟩, hz⟩]; simp only [hpos, if_false]; ring
+      rw [this, rsum_sub, rsum_mul_left]
+      show warmP s a1 - warmP s a1 / warmN s a1 * warmN s a1 = 0
+      rw [div_mul_cancel₀ _ (ne_of_gt hNpos), sub_self]
+
+
+/-- **a warm-started C-SVM run starts inside the invariant**, whatever coefficients the previous model carries, and
+with bias its coefficient sum is exactly 0 -- so `reachable_inv`, `sum_inv` and `stopped_near_optimal_*` apply to warm
+starts as to cold ones (this is the configuration-independence clause for warm starts, given termination). -/
+theorem warm_start_inv (n : Nat) (K : Nat → Nat → Rat) (y : Nat → Bool) (Cn Cp : Rat) (w : Nat → Rat) (bias sh : Bool)
+    (a1 : Nat → Rat) (hsym : ∀ x y, K x y = K y x) (hCn : 0 ≤ Cn) (hCp : 0 ≤ Cp) (hw : ∀ k, k < n → 0 ≤ w k) :
+    let s0 := csvmInit2 n K y Cn Cp w bias sh
+    Inv (s0.setInitialSolution (warmStartVector s0 a1 bias)) ∧
+    (bias = true → alphaSum (s0.setInitialSolution (warmStartVector s0 a1 bias)) = 0) := by
+  intro s0
+  have h0 : Inv s0 := csvmInit2_inv n K y Cn Cp w bias sh hsym hCn hCp hw
+  have hbox0 : ∀ k, k < s0.n → s0.L k ≤ 0 ∧ 0 ≤ s0.U k := by
+    intro k hk
+    have := h0.box k hk
+    have ha : s0.alpha k = 0 := lit0
+    rw [ha] at this; exact this
+  refine ⟨setInitialSolution_inv h0 rfl _ (warmStart_in_box s0 a1 bias hbox0), ?_⟩
+  intro hb
+  subst hb
+  exact warmStart_sum_zero s0 a1
+
+example : ∃ (n : Nat) (K : Nat → Nat → Rat) (Cn Cp : Rat) (w : Nat → Rat),
+    (∀ x y, K x y = K y x) ∧ 0 ≤ Cn ∧ 0 ≤ Cp ∧ ∀ k, k < n → 0 ≤ w k :=
+  ⟨2, fun _ _ => 1, 1, 2, fun _ => 1, fun _ _ => rfl, by norm_num, by norm_num, fun _ _ => by norm_num⟩
 
 end SharkVerif.C07
